@@ -1,7 +1,7 @@
 """O14.3 TableBuilder::flush_data_block / write_block / emit_block_to_disk: block handles and the offsets announced to the filter
 block builder; O14.2 filter block builder/reader agree on which filter covers which block offset."""
 import time
-from z3 import BitVec, BitVecVal, Bool, BoolVal, And, Or, Not, Implies, ULT, ULE, UGT, UGE, If, LShR, UDiv, ZeroExt, simplify
+from z3 import BitVec, BitVecVal, Bool, BoolVal, And, Or, Not, Implies, ULT, ULE, UGT, UGE, If, LShR, UDiv, ZeroExt, Extract, simplify
 from ..exec import Exec, Enum, Ref, Opaque, Inconclusive, bv
 from ..ob import Result, mval
 from .. import lib
@@ -555,3 +555,67 @@ def o14_7_finalize(mir, tier):
     res.wall_s = time.time() - t0
     if res.violations: res.status = 'violation'
     return res
+
+
+def o14_8_filter_reader(mir, tier):
+    """FilterBlockReader::new (split_filters_with_offset inlined; the fixed-int decoders and deserialize_offsets by contract: k offsets,
+    free, ascending, inside the filter bytes) over a filter block of free length.  Reference: filter i of the reader is exactly the
+    byte range [offset i, offset i+1) of the block (the last one runs to the start of the offset array) - whatever its length
+    (a filter over many keys with many bits per key is longer than the 2 KiB of file it covers) and whatever its first byte (the
+    number of probes, up to 30) is; the stored range-size exponent is the last byte."""
+    fn = mir.method('FilterBlockReader', 'new')
+    K = 2 if tier == 'quick' else 3
+    res = Result('O14.8 FilterBlockReader::new keeps every filter as written', [fn.path, mir.method('FilterBlockReader', 'split_filters_with_offset').path], '1..%d filters with free ascending offsets (< 2^32), block length free; byte contents abstract' % K)
+    t0 = time.time()
+    for k in range(1, K + 1):
+        S = lib.std_summaries(); P = S['$patterns']
+        total = BitVec('filter_block_len', 64); start = BitVec('offsets_start', 64)
+        offs = [BitVec('offset%d' % i, 32) for i in range(k)]
+        pre = [ULT(total, bv(1 << 32)), UGE(total, bv(5 + 4 * k)), start == total - bv(5 + 4 * k), ZeroExt(32, offs[0]) == bv(0)]
+        pre += [ULE(offs[i], offs[i + 1]) for i in range(k - 1)] + [ULE(ZeroExt(32, offs[-1]), start)]
+        def P_(se, env, v):
+            v = se.deref(env, v) if isinstance(v, Ref) else v
+            while isinstance(v, Ref): v = se.deref(env, v)
+            return v
+        def pop(se, env, pc, r):
+            b = dict(P_(se, env, r)); b['len'] = b['len'] - bv(1); se.store(env, r, b)
+            return lib.one(env, Enum('Some', (BitVec('range_size_exponent', 8),)))
+        P[r'Vec::pop'] = pop
+        P[r'<u32 as FixedInt>::decode_fixed'] = lambda se, env, pc, sl: lib.one(env, Extract(31, 0, start))
+        P[r'FilterBlockReader::deserialize_offsets'] = lambda se, env, pc, sl: lib.one(env, Enum('Ok', (list(offs),)))
+        P[r'<Arc<dyn FilterPolicy> as Clone>::clone'] = lib.ident; P[r'Arc::clone'] = lib.ident
+        P[r'<Vec<u8> as Deref>::deref'] = lib.ident; P[r'<Vec<u8> as DerefMut>::deref_mut'] = lib.ident
+        P[r'<Vec<Vec<u8>> as Deref>::deref'] = lib.ident; P[r'<Vec<Vec<u8>> as DerefMut>::deref_mut'] = lib.ident
+        P[r'<Vec<u32> as Deref>::deref'] = lib.ident
+        ex = Exec(mir, S, loop_bound=k + 3)
+        ff = mir.struct_fields('FilterBlockReader')
+        def kf(ret, env, pc, ex=ex, k=k, offs=offs, start=start):
+            ok = isinstance(ret, Enum) and ret.tag == 'Ok'
+            posts = [('a well-formed filter block is rejected', BoolVal(ok))]
+            if ok:
+                r = ret.fields[0]; fl = r[ff.index('filters')]
+                posts.append(('the reader does not hold one filter per offset', BoolVal(len(fl) == k)))
+                for i, f in enumerate(fl[:k]):
+                    f = f if isinstance(f, dict) else (ex.deref(env, f) if isinstance(f, Ref) else f)
+                    end = ZeroExt(32, offs[i + 1]) if i + 1 < k else start
+                    good = And(f['len'] == end - ZeroExt(32, offs[i]), f['off'] == ZeroExt(32, offs[i])) if isinstance(f, dict) and 'len' in f and f.get('off') is not None else BoolVal(False)
+                    posts.append(('a filter held by the reader is not the byte range the offsets give it (a long filter, or one whose first byte is large, is replaced by an empty one: every key of its range is reported absent)', good))
+                posts.append(('the range-size exponent is not the last byte of the block', r[ff.index('encoded_range_size_exponent')] == BitVec('range_size_exponent', 8)))
+            res.cases['%d filters -> %s' % (k, 'Ok' if ok else 'Err')] = 1
+            for label, post, m in ex.check_posts(posts, pc):
+                res.violations.append({'label': label, 'filters': k, 'offsets': [mval(m, o) for o in offs], 'block_len': mval(m, total), 'replay': ['filter_policy_sweep']})
+        ex.top(fn, ['policy', {'len': total, 'kind': 'filter block', 'off': bv(0)}], {'$state': {}}, pre, kf)
+        res.absorb(ex)
+        for pcx, msg, where in ex.panics:
+            ex.solver.push(); ex.solver.add(*pre); ex.solver.add(*[c for c in pcx if not isinstance(c, bool)]); feas = str(ex.solver.check()) == 'sat'; ex.solver.pop()
+            if feas: res.panic_paths += 1; res.violations.append({'label': 'panic path: ' + msg[:80], 'replay': None, 'confirmed_by': {'reproduced': False, 'detail': 'no native scenario'}})
+    res.wall_s = time.time() - t0
+    if res.violations: res.status = 'violation'
+    return res
+
+
+def o14_8_confirm(v, out):
+    """Native: tables of 700 tiny entries in 64-byte blocks for bits_per_key in {1, 10, 30, 43, 44, 50, 64} (filters of more than 2 KiB
+    and with 30 probes among them); every stored key is looked up."""
+    if out.get('_rc') != 0: return (True, 'native run failed / panicked: %s' % out.get('_stderr', '')[-300:])
+    return (out.get('missing', '0') != '0', 'native: %s stored keys reported absent (first: %s)' % (out.get('missing'), out.get('first_missing')))
